@@ -5,6 +5,7 @@
 //! violates the postcondition, and prints one JSON object:
 //!   {"key":..,"found":true,"input":..,"observed":..,"required":..}  or {"found":false,"tried":N}
 //! `audit-*` keys execute the assumed contracts of /repo callees (assumption audit).
+mod address;
 mod deletion;
 mod mask;
 mod rng;
@@ -36,6 +37,7 @@ fn main() {
         k if k.starts_with("mask-") || k.starts_with("audit-treemap") || k.starts_with("treemap-") => {
             mask::run(k, seed, iters)
         }
+        k if k.starts_with("address") => address::run(k, seed, iters),
         k if k.starts_with("offset-mapper") || k.starts_with("audit-deletion") => deletion::run(k, seed, iters),
         _ => {
             println!("{{\"key\":\"{}\",\"found\":false,\"error\":\"unknown key\"}}", key);
